@@ -3,7 +3,9 @@ package harness
 import (
 	"bytes"
 	"fmt"
+	"strings"
 	"testing"
+	"time"
 
 	"github.com/kelindar/column"
 	"pgregory.net/rapid"
@@ -55,7 +57,31 @@ func TestC14(t *testing.T) {
 		defer column.SetVerifHook(nil)
 		cfg := TxnCfg{Prop: "C14", MaxSteps: 5, Deletes: true, Inserts: true, Merges: true, NoStoreOnDel: KFActive("f11-store-and-delete-same-txn"), NoOpAfterLenMerge: KFActive("f15-difflen-merge-reorder")}
 		// layout: empty, one block, several blocks
-		switch rapid.IntRange(0, 5).Draw(t, "layout") {
+		switch rapid.IntRange(0, 6).Draw(t, "layout") {
+		case 6:
+			// a large state (> 1 MiB, so that the s2 encoder hands blocks to the destination while
+			// chunk latches are still held inside writeState)
+			mc.ActPrefill(t, 33000, storableCols(mc.M, TxnCfg{}), rapid.Uint64().Draw(t, "seed"))
+			big := []int{}
+			for i, cs := range sch.Cols {
+				if cs.Kind == KString && mc.M.ColLive[i] {
+					big = append(big, i)
+				}
+			}
+			mc.logf("large layout: %d rows", len(mc.M.Rows))
+			// fatten every row with a 40-byte string through a bulk transaction when a string column exists
+			if len(big) > 0 {
+				val := Value{S: strings.Repeat("F", 40)}
+				mc.C.Query(func(txn *column.Txn) error {
+					for _, off := range mc.M.Live() {
+						txn.QueryAt(off, func(r column.Row) error { r.SetString(sch.Cols[big[0]].Name, val.S); return nil })
+					}
+					return nil
+				})
+				for _, off := range mc.M.Live() {
+					mc.M.Rows[off][big[0]] = Cell{Has: true, V: val}
+				}
+			}
 		case 0:
 		case 1:
 			mc.ActPrefill(t, 16390, storableCols(mc.M, TxnCfg{})[:1], rapid.Uint64().Draw(t, "seed"))
@@ -152,6 +178,11 @@ func TestC14(t *testing.T) {
 				mc.fail(t, "%s: the writer never failed but Snapshot returned %v", what, err)
 			}
 			leakCheck(what)
+			// the collection keeps working: a write transaction on EVERY populated block completes
+			// (a latch left locked by an error path would block it forever)
+			if msg := livenessProbe(mc); msg != "" {
+				mc.fail(t, "%s: %s", what, msg)
+			}
 			consecutive++
 			// the collection keeps working: a transaction commits and matches the model
 			if pi%3 == 0 {
@@ -195,4 +226,45 @@ func snapshotBytes(mc *Machine) []byte {
 	var buf bytes.Buffer
 	mc.C.Snapshot(&buf)
 	return buf.Bytes()
+}
+
+// livenessProbe commits a state-preserving write (re-put of the value a row
+// already holds in "expire", or a put of 0 followed by nothing else when absent
+// is avoided) on one live row of every populated block, under a timeout.
+func livenessProbe(mc *Machine) string {
+	type target struct {
+		off uint32
+		v   int64
+	}
+	var targets []target
+	seen := map[uint32]bool{}
+	for _, off := range mc.M.Live() {
+		if seen[off>>14] {
+			continue
+		}
+		if c := mc.M.Rows[off][0]; c.Has {
+			seen[off>>14] = true
+			targets = append(targets, target{off, int64(c.V.B)})
+		}
+	}
+	if len(targets) == 0 {
+		return ""
+	}
+	done := make(chan struct{})
+	go func() {
+		defer close(done)
+		defer func() { recover() }()
+		mc.C.Query(func(txn *column.Txn) error {
+			for _, tg := range targets {
+				txn.QueryAt(tg.off, func(r column.Row) error { r.SetInt64("expire", tg.v); return nil })
+			}
+			return nil
+		})
+	}()
+	select {
+	case <-done:
+		return ""
+	case <-time.After(20 * time.Second):
+		return fmt.Sprintf("the collection is not usable any more: a transaction writing to %d block(s) did not complete within 20 s (a lock is still held)", len(targets))
+	}
 }
